@@ -4,6 +4,7 @@
 package mpclgen
 
 import (
+	"math/big"
 	. "verif/refsem"
 )
 
@@ -45,6 +46,12 @@ func FamExpr(t Type, emit func(Gen)) {
 			ret("expr-const-operand", t, Bin{Op: op, L: a, R: Const{T: t, V: c}})
 			ret("expr-const-operand", t, Bin{Op: op, L: Const{T: t, V: c}, R: b})
 		}
+		// constants at the sizes where the compiler changes representation or strategy: powers of two (strength
+		// reduction), 32/64-bit boundaries, values wider than 64 bits, all ones
+		for _, c := range wideConsts(t) {
+			ret("expr-wide-const-operand", t, Bin{Op: op, L: a, R: BigConst{T: t, V: c}})
+			ret("expr-wide-const-operand", t, Bin{Op: op, L: BigConst{T: t, V: c}, R: b})
+		}
 		for _, op2 := range arith {
 			ret("expr-nested", t, Bin{Op: op2, L: Bin{Op: op, L: a, R: b}, R: a})
 			ret("expr-nested", t, Bin{Op: op2, L: b, R: Bin{Op: op, L: a, R: b}})
@@ -75,6 +82,39 @@ func FamExpr(t Type, emit func(Gen)) {
 		ret("expr-shift", t, Bin{Op: ">>", L: a, R: Lit{V: c}})
 		ret("expr-shift", t, Bin{Op: "^", L: Bin{Op: ">>", L: Bin{Op: "+", L: a, R: b}, R: Lit{V: c}}, R: b})
 	}
+}
+
+// wideConsts: non-negative constants representable in t beyond the small ones.
+func wideConsts(t Type) []*big.Int {
+	vw := t.W
+	if t.Signed {
+		vw--
+	}
+	if vw < 4 {
+		return nil
+	}
+	seen := map[string]bool{}
+	var out []*big.Int
+	add := func(v *big.Int) {
+		if v.Sign() <= 0 || v.BitLen() > vw || v.BitLen() <= 3 || seen[v.String()] {
+			return
+		}
+		seen[v.String()] = true
+		out = append(out, v)
+	}
+	pow := func(k int) *big.Int { return new(big.Int).Lsh(big.NewInt(1), uint(k)) }
+	for _, k := range []int{vw - 1, vw / 2, 31, 32, 33, 63, 64, 65} {
+		if k < vw {
+			add(pow(k))
+		}
+	}
+	add(new(big.Int).Sub(pow(vw), big.NewInt(1)))   // all ones
+	add(new(big.Int).Add(pow(64), big.NewInt(4)))   // low 64 bits: a single bit
+	add(new(big.Int).Add(pow(vw-1), pow(vw/2)))     // two bits
+	add(new(big.Int).Sub(pow(32), big.NewInt(1)))   // 0xffffffff
+	add(new(big.Int).Add(pow(65), pow(64)))         // low 64 bits zero, two high bits
+	add(new(big.Int).Mul(pow(vw/2), big.NewInt(3))) // 3 * 2^k
+	return out
 }
 
 // FamCast: widening / narrowing / reinterpreting casts between t and u (same signedness unless same width).
@@ -309,6 +349,59 @@ func FamStruct(t, u Type, emit func(Gen)) {
 	emit(Gen{"struct-argument", &Program{Structs: []Type{st}, Funcs: []Func{mainFn([]Param{{Name: "s", T: st}, {Name: "b", T: t}}, []Type{t, u}, body)}}})
 }
 
+// FamConstStore: untyped integer literals stored into array elements, struct fields and plain variables that hold
+// input-derived values, for element types narrower and wider than the compiler's 32- and 64-bit constant sizes.
+func FamConstStore(t Type, emit func(Gen)) {
+	a, b := Var{Name: "a"}, Var{Name: "b"}
+	vw := t.W
+	if t.Signed {
+		vw--
+	}
+	var lits []int64
+	for _, v := range []int64{0, 1, 7, 1100, 1<<31 - 1, 1 << 31, 1<<32 - 1, 1 << 40, 1<<62 + 5} {
+		if vw >= 63 || v < 1<<uint(vw) {
+			lits = append(lits, v)
+		}
+	}
+	at := t
+	at.N = 3
+	arr := Var{Name: "arr"}
+	fill := []Stmt{
+		VarDecl{Name: "arr", T: at},
+		Assign{Name: "arr", Idx: Lit{V: 0}, X: a},
+		Assign{Name: "arr", Idx: Lit{V: 1}, X: b},
+		Assign{Name: "arr", Idx: Lit{V: 2}, X: Bin{Op: "^", L: a, R: b}},
+	}
+	all := Return{X: []Expr{Index{A: arr, Idx: Lit{V: 0}}, Index{A: arr, Idx: Lit{V: 1}}, Index{A: arr, Idx: Lit{V: 2}}}}
+	st := Type{Name: "P", Fields: []Type{t, t}, Names: []string{"x", "y"}}
+	p := Var{Name: "p"}
+	for _, v := range lits {
+		c := UConst{T: t, V: v}
+		for k := int64(0); k < 3; k++ {
+			body := append(append([]Stmt{}, fill...), Assign{Name: "arr", Idx: Lit{V: k}, X: c}, all)
+			emit(Gen{"const-store-array", &Program{Funcs: []Func{mainFn(ab(t), []Type{t, t, t}, body)}}})
+		}
+		// in a loop over all elements but the last
+		body := append(append([]Stmt{}, fill...), For{Var: "i", From: 0, To: 2, Body: []Stmt{Assign{Name: "arr", Idx: Var{Name: "i"}, X: c}}}, all)
+		emit(Gen{"const-store-array-loop", &Program{Funcs: []Func{mainFn(ab(t), []Type{t, t, t}, body)}}})
+		// under a condition
+		body = append(append([]Stmt{}, fill...), If{Cond: Bin{Op: "<", L: a, R: b}, Then: []Stmt{Assign{Name: "arr", Idx: Lit{V: 1}, X: c}}, Else: []Stmt{Assign{Name: "arr", Idx: Lit{V: 0}, X: c}}}, all)
+		emit(Gen{"const-store-array-if", &Program{Funcs: []Func{mainFn(ab(t), []Type{t, t, t}, body)}}})
+		for _, f := range []string{"x", "y"} {
+			body := []Stmt{
+				VarDecl{Name: "p", T: st},
+				Assign{Name: "p", Field: "x", X: a},
+				Assign{Name: "p", Field: "y", X: b},
+				Assign{Name: "p", Field: f, X: c},
+				Return{X: []Expr{Field{X: p, Name: "x"}, Field{X: p, Name: "y"}}},
+			}
+			emit(Gen{"const-store-field", &Program{Structs: []Type{st}, Funcs: []Func{mainFn(ab(t), []Type{t, t}, body)}}})
+		}
+		body = []Stmt{Define{Name: "x", X: a}, If{Cond: Bin{Op: "<", L: a, R: b}, Then: []Stmt{Assign{Name: "x", X: c}}}, Return{X: []Expr{Bin{Op: "+", L: Var{Name: "x"}, R: b}}}}
+		emit(Gen{"const-store-var", &Program{Funcs: []Func{mainFn(ab(t), []Type{t}, body)}}})
+	}
+}
+
 // FamCall: helper functions with 1..3 results, arguments aliasing the same variable.
 func FamCall(t Type, emit func(Gen)) {
 	a, b, u, v := Var{Name: "a"}, Var{Name: "b"}, Var{Name: "u"}, Var{Name: "v"}
@@ -413,6 +506,13 @@ func Statements(quick bool, emit func(Gen)) {
 	}
 	for _, tu := range [][2]Type{{Uint(3), Uint(5)}, {Int(4), Int(2)}, {Uint(8), Uint(3)}} {
 		FamStruct(tu[0], tu[1], emit)
+	}
+	storeTypes := []Type{Uint(8), Uint(33), Uint(64), Int(64)}
+	if !quick {
+		storeTypes = []Type{Uint(5), Uint(8), Int(16), Uint(32), Uint(33), Int(40), Uint(64), Int(64), Uint(65), Uint(100), Int(128)}
+	}
+	for _, t := range storeTypes {
+		FamConstStore(t, emit)
 	}
 }
 
